@@ -181,6 +181,26 @@ fn gen_c20(tier: &str, rng: &mut Rng, emit: &mut dyn FnMut(Op)) {
             emit(Op::s("metadata.read", &[&i.to_string(), v]));
         }
     }
+    // is_valid looks at the three mandatory entries only: each value class in each of them while
+    // the two others hold ordinary text (2 = comment, 3 = contents, 5 = description), with and
+    // without a rejected size read before / after
+    for v in vals {
+        for which in 0..3 {
+            let trio = ["2", "3", "5"];
+            let mut args: Vec<String> = vec![];
+            for (k, e) in trio.iter().enumerate() {
+                args.push(e.to_string());
+                args.push(if k == which { v.to_string() } else { format!("text {}", k) });
+            }
+            let refs: Vec<&str> = args.iter().map(|s| s.as_str()).collect();
+            emit(Op::s("metadata.read", &refs));
+            let mut with_bad = vec!["13".to_string(), "4k".to_string()];
+            with_bad.extend(args.iter().cloned());
+            with_bad.extend(["12".to_string(), "".to_string()]);
+            let refs: Vec<&str> = with_bad.iter().map(|s| s.as_str()).collect();
+            emit(Op::s("metadata.read", &refs));
+        }
+    }
     for _ in 0..(if thorough { 3000 } else { 300 }) {
         let n = rng.range(1, 5);
         let mut args: Vec<String> = vec![];
